@@ -1,6 +1,7 @@
 import DoitModel.Proofs.C08Data
 import DoitModel.Proofs.C08Confluence
 import DoitModel.Proofs.C08DynConfluence
+import DoitModel.Proofs.C08DynExec
 /-! # C08 — parallel runs are outcome-equivalent to the serial run
 
 Property theorems only.  Models: `Model/Run.lean` (M1, transition systems of the three runners), `Model/RunData.lean`
@@ -268,6 +269,35 @@ theorem C08_complete_exit_dyn (inp : RunInput) (s : Sys) (hr : Reach inp s ∨ P
     (L : List Name) (hL : ∀ t, t ∈ L ↔ Dyn.DenCl inp t) (den : Name → Den)
     (hden : ∀ t ∈ L, Dyn.DenOf inp t (den t)) : exitCode s = exitOfDens (L.map den) :=
   Dyn.complete_exit_is_den hr hend hhalt hstop L hL den hden
+
+/-- the executable denotation with dynamic edges (`denFC`: bottom-up table over the tasks `< nTasks`, calc_dep sets closed
+    by iteration) is sound: a determined answer IS the denotation — it is derived, and every derivation gives it.  (No
+    acyclicity hypothesis; on a graph where the rounds do not suffice the answer is `bot`.) -/
+theorem C08_den_computable_dyn (inp : RunInput) (nTasks : Nat) (t : Name) (h : denFC inp nTasks t ≠ .bot) :
+    Dyn.DenOf inp t (denFC inp nTasks t) ∧ ∀ d, Dyn.DenOf inp t d → denFC inp nTasks t = d :=
+  ⟨Dyn.denFC_sound inp nTasks t h, fun _ hd => (Dyn.denFC_sound inp nTasks t h).functional hd⟩
+
+/-- under the decidable side condition `determinedC` (every member of the computed closure is determined and has a
+    closed dependency list, the closure is closed) the computed closure is the denotational closure, and the monitor
+    `monC08DenC` the driver evaluates on implementation traces of graphs WITH calc_dep (reports = `denFC`, reported set
+    = `denClosureC`, exit = `denExitC`) holds of every reachable state of the model, serial or parallel -/
+theorem C08_monitors_hold_dyn (inp : RunInput) (s : Sys) (hr : Reach inp s ∨ PReach inp s) (nTasks : Nat)
+    (hdet : determinedC inp nTasks = true) (complete : Bool)
+    (hc : complete = true → s.rpc = .halted ∧ s.halt = .none ∧ s.stop = false) :
+    (∀ t, t ∈ denClosureC inp nTasks ↔ Dyn.DenCl inp t) ∧
+    monC08DenC inp nTasks (trace inp s) (exitCode s) complete = true :=
+  ⟨Dyn.denClosureC_spec hdet, Dyn.C08_monitor_denC hr nTasks hdet complete hc⟩
+
+/-- non-vacuity: `Dyn.exC08calc` (twice-delivered dependencies) is determined, its closure is all six tasks, task `1`
+    is `unmet` because the delivered task_dep `2` fails, the exit code is ERROR — and the monitor theorem applies to
+    its complete run with two worker threads -/
+example : determinedC Dyn.exC08calc 6 = true ∧ denClosureC Dyn.exC08calc 6 = [1, 3, 0, 4, 2, 5] ∧
+    denFC Dyn.exC08calc 6 1 = .fail .unmet ∧ denFC Dyn.exC08calc 6 5 = .ok ∧ denExitC Dyn.exC08calc 6 = 2 ∧
+    ∃ s, PReach Dyn.exC08calc s ∧ monC08DenC Dyn.exC08calc 6 (trace Dyn.exC08calc s) (exitCode s) true = true :=
+  ⟨by decide +kernel, by decide +kernel, by decide +kernel, by decide +kernel, by decide +kernel,
+   _, autoRun_preach (by decide) false true 800 _ PReach.init,
+   (C08_monitors_hold_dyn _ _ (Or.inr (autoRun_preach (by decide) false true 800 _ PReach.init)) 6 (by decide +kernel)
+     true (fun _ => ⟨by decide +kernel, by decide +kernel, by decide +kernel⟩)).2⟩
 
 /-- non-vacuity of `C08_confluence` on dynamic edges: `Dyn.exC08calc` has a complete run with two worker threads and a
     complete serial run; in the parallel run the twice-delivered `5` is executed, `1` is reported `unmet` because the
